@@ -40,7 +40,7 @@ func newWorld(t *rapid.T, dir string) *world {
 		GlobalSlots:  uint64(ri(t, "globalslots", 4, 8)),
 		AccountQueue: uint64(ri(t, "accountqueue", 2, 4)),
 		GlobalQueue:  uint64(ri(t, "globalqueue", 4, 8)),
-		Lifetime:     time.Duration(ri(t, "lifetime_min", 1, 60)) * time.Minute,
+		Lifetime:     time.Duration(ri(t, "lifetime_h", 1, 48)) * time.Hour, // never reached by the wall clock; see expire
 	}
 	cfg.NoLocals = chance(t, "nolocals", 8)
 	if chance(t, "cfglocal", 6) {
